@@ -234,6 +234,7 @@ def run(P, R, tier, cfg):
     _front_eviction(P, R)
     _aggregates(P, R)
     _cursors(P, R)
+    _window_manager(P, R)
 
 
 def _aligned(P, R):
@@ -502,3 +503,83 @@ def _cursors(P, R):
                                 R.hold("f", "%s: cursor `%s` advances by %s >= 1 each trip" % (fn.short_name, name, stxt), fn=fn, line=d[3][0])
                             else:
                                 R.violate("f", "cursor-may-stall:%s:%s" % (fn.name, name), "%s: the loop `while %s <= ..` adds `%s` to its cursor, which is 0 when the window is 1 ms long: the loop never ends" % (fn.short_name, name, stxt), fn, d[3][0])
+
+
+def _window_manager(P, R):
+    """g. WindowManager::process_event puts each event in exactly one window: either an existing window ACCEPTED it (its
+    add_event returned true - membership is add_event's business, clause c) or a new aligned window is created for it, never
+    neither (event lost: a late event whose own window was never opened) and never both."""
+    WMG = "streaming::window::WindowManager"
+    f = P.fn(WMG + "::process_event")
+    if f is None:
+        R.undecide("g", "process_event", "WindowManager::process_event not found")
+        return
+    ev = {}
+    creates, adds, cleanup = [], [], []
+    for c in f.calls():
+        if c.bb not in f.normal_blocks():
+            continue
+        if c.resolved == TW + "::new":
+            ev.setdefault(c.bb, []).append("create"); creates.append(c)
+        elif c.resolved == TW + "::add_event":
+            adds.append(c)
+        elif c.resolved and c.resolved.endswith("::cleanup_expired_windows"):
+            cleanup.append(c)
+    if not creates or not adds:
+        R.undecide("g", "process_event", "window creation / add_event calls not found (%d/%d)" % (len(creates), len(adds)), f)
+        return
+    stops = [c.bb for c in cleanup] or None
+    rows, capped = A.decision_rows(f, stop_blocks=stops, extra_block_events=ev)
+    if capped:
+        R.undecide("g", "process_event", "decision rows capped", f)
+        return
+    existing = set(c.bb for c in adds if "self.windows" in fmt_sym(f.sym_operand(c.args[0]), maxdepth=10))
+    n = 0
+    bad = []
+    for conds, ret, ex, evs in rows:
+        feasible = True
+        accepted = False
+        for (c, o) in conds:
+            s0 = strip(c)
+            if s0[0] == "const" and isinstance(s0[2], bool) and isinstance(o, bool) and s0[2] != o:
+                feasible = False
+            if isinstance(o, bool) and any(x[0] == "call" and x[3] in existing and x[1] == TW + "::add_event" for x in walk(c)):
+                a, v = A.norm_bool(c, o)
+                if v is True:
+                    accepted = True
+        if not feasible:
+            continue
+        n += 1
+        created = "create" in evs
+        if accepted == created:
+            bad.append((accepted, created, [(fmt_sym(c, maxdepth=4)[:50], o) for c, o in conds]))
+    if bad:
+        a, c, conds = bad[0]
+        R.violate("g", "event-in-%s-windows" % ("two" if a else "no"),
+                  "WindowManager::process_event has a path on which the event is %s (conditions %s): %s" % (
+                      "accepted by an existing window AND put in a new one" if a else "neither accepted by an existing window nor given a new window",
+                      conds, "the event is counted twice" if a else "a late event whose aligned window is not open yet is lost (an existing window's add_event returned false or its result was ignored)"), f)
+    elif n >= 2:
+        R.hold("g", "process_event: on every path the event is accepted by an existing window xor a new window is created", "%d feasible paths" % n, f)
+    else:
+        R.undecide("g", "process_event", "only %d feasible paths enumerated" % n, f)
+    # every existing window is offered the event: the probing loop walks self.windows without dropping elements
+    okp = False
+    for lp in f.loops():
+        if any(c.bb in lp["body"] for c in adds if c.bb in existing):
+            drv = A.loop_driver(f, lp)
+            if drv["kind"] == "iterator" and "self.windows" in fmt_sym(drv["iter_sym"], maxdepth=8) and not A.truncating_adapters(drv["iter_sym"]):
+                okp = True
+    if okp:
+        R.hold("g", "process_event offers the event to every open window until one accepts it", fn=f)
+    elif not bad:
+        R.violate("g", "probe-incomplete", "process_event does not offer the event to every open window (no un-truncated loop over self.windows calling add_event)", f)
+    # the new window is the aligned one and receives the event
+    nw = creates[0]
+    start = fmt_sym(f.sym_operand(nw.args[2]), maxdepth=6) if len(nw.args) > 2 else ""
+    new_adds = [c for c in adds if c.bb not in existing]
+    pushes = [c for c in f.calls() if c.bb in f.normal_blocks() and c.name == "std::vec::Vec::push" and "self.windows" in fmt_sym(f.sym_operand(c.args[0]), maxdepth=6)]
+    if "calculate_window_start" in start and "metadata.timestamp" in start and new_adds and pushes and all(f.dominates(nw.bb, x.bb) for x in new_adds + pushes):
+        R.hold("g", "the new window starts at calculate_window_start(event timestamp), receives the event and is stored", fn=f, line=nw.line)
+    else:
+        R.violate("g", "new-window", "the window created for an unaccepted event is not (aligned start=%s, event added=%s, stored=%s)" % ("calculate_window_start" in start, bool(new_adds), bool(pushes)), f, nw.line)
